@@ -311,7 +311,11 @@ def check_auth(request, response, realm, users, encrypt=None):
     """
     if 'Authorization' in request.headers:
         # make sure the provided credentials are correctly set
-        ah = _httpauth.parseAuthorization(request.headers.get('Authorization'))
+        try:
+            ah = _httpauth.parseAuthorization(request.headers.get('Authorization'))
+        except Exception:
+            # (no space, unknown scheme, bad base64, ...)
+            ah = None
         if ah is None:
             # malformed or unsupported credentials are no credentials
             request.login = False
@@ -342,9 +346,16 @@ def check_auth(request, response, realm, users, encrypt=None):
 
         # validate the Authorization by re-computing it here
         # and compare it with what the user-agent provided
-        if password is not None and _httpauth.checkResponse(
-            ah, password, method=request.method, encrypt=encrypt, realm=realm
-        ):
+        try:
+            verified = password is not None and _httpauth.checkResponse(
+                ah, password, method=request.method, encrypt=encrypt, realm=realm
+            )
+        except Exception:
+            # credentials that cannot be verified (unsupported algorithm or
+            # qop, missing fields, ...) are refused, not an internal error
+            verified = False
+
+        if verified:
             request.login = ah['username']
             return True
 
